@@ -66,8 +66,33 @@ func natName(p string) string {
 // config builds the root configuration. A project named more than once gets the names
 // <base>, <base>_2, <base>_3. flip inserts the requirements into the map in reverse order
 // (the iteration order of a small Go map is a random rotation of its insertion order).
+// curSpelling != "": the root configuration is written as a dawn.toml with non-canonically
+// spelled requirement paths and read back through dawn's configuration loader, like the CLI.
+var curSpelling string
+
 func config(roots []mvsfake.Req, renamed, flip bool) *project.Config {
 	c := &project.Config{Requirements: map[string]project.RequirementConfig{}}
+	if curSpelling != "" {
+		var b []byte
+		for i, r := range roots {
+			name := fmt.Sprintf("%s_%d", filepath.Base(r.Path), i)
+			if renamed {
+				name = fmt.Sprintf("z%d", len(roots)-i)
+			}
+			if i == 0 {
+				b = append(b, "[requirements]\n"...)
+			}
+			b = append(b, fmt.Sprintf("%s = {path = %q, version = %q}\n", name, mvsfake.SpellPath(r.Path, curSpelling), r.Version)...)
+		}
+		cfg, err := project.LoadConfigBytes(b)
+		if err != nil {
+			vlib.Fatalf("root configuration does not load: %v\n%s", err, b)
+		}
+		if cfg.Requirements == nil {
+			cfg.Requirements = map[string]project.RequirementConfig{}
+		}
+		return cfg
+	}
 	names := make([]string, len(roots))
 	seen := map[string]int{}
 	for i, r := range roots {
@@ -834,6 +859,13 @@ func main() {
 				{Dir: "a", Versions: []string{"v1.9.10", "v1.10.0", "v1.10.9"}}, {Dir: "b", Versions: []string{"v1.0.0-rc.9", "v1.0.0-rc.10", "v1.0.0"}}}}, dupRoots: true},
 			famT{Family: &mvsfake.Family{Name: "concurrent resolutions on one shared resolver: a(2), c, c@v2", Addr: "example.com", Projects: []mvsfake.ProjectDef{vo1, one("c", "v1.0.0"), one("c", "v2.0.0")}}, concurrent: true})
 	}
+	// requirement paths spelled non-canonically (but legally) in dependency and root dawn.toml
+	// files: the graph, and so the build list, is that of the canonical spelling
+	for _, sp := range []string{"major", "dot", "slash"} {
+		fams = append(fams, famT{Family: &mvsfake.Family{Name: "requirement paths spelled non-canonically (" + sp + "): 2x2 chains and cycles", Addr: "example.com", Spell: sp, Projects: []mvsfake.ProjectDef{pa, pb}}})
+	}
+	fams = append(fams, famT{Family: &mvsfake.Family{Name: "requirement paths spelled non-canonically (major): diamond a, b, c(2)", Addr: "example.com", Spell: "major",
+		Projects: []mvsfake.ProjectDef{one("a", "v1.0.0"), one("b", "v1.0.0"), vo1c()}}})
 	fams = append(fams,
 		famT{Family: &mvsfake.Family{Name: "tags of equal precedence on different commits: x/v1.2, x/v1.2.0, x/v1.2.0+hotfix"}, custom: equalPrecedenceFamily()},
 		famT{Family: &mvsfake.Family{Name: "requirement versions that are not canonical (build metadata, short form, leading zero)"}, custom: nonCanonicalFamily()})
@@ -914,6 +946,7 @@ func main() {
 		}
 		for ui := it.lo; ui < it.hi; ui++ {
 			u := funiverse(f, ui)
+			curSpelling = u.ReqSpelling
 			w := mvsfake.Build(u)
 			var wr *mvsfake.World
 			t.Add("universes", 1)
@@ -1007,6 +1040,7 @@ func main() {
 		"crash model of the interrupted-fetch family: process death (os.Exit in a child process that shares the cache directory and the temp directory) at every point between two file writes of a checkout; files written so far persist, nothing deferred runs, no file is torn. A checkout writes a stale legacy .dawnconfig (different requirements) first, then dawn.toml, then BUILD.dawn and src/lib.txt. After the death a fresh Resolver in the parent must compute the reference build list. Interleaving model: one download parked between two file writes while a second Resolver on the same cache directory resolves",
 		"concurrent resolutions: a BuildList on a cold shared Resolver is parked inside the download of one reachable project version (every reachable version in turn) while a second BuildList runs on the SAME Resolver (same roots; and roots = just that version); both must equal their reference. Plus 3 free-running rounds per pair of 4 concurrent BuildLists on one cold shared Resolver",
 		"a tag is any <dir>/<valid semver> name (v1.2, v1.2.0+hotfix are tags, as for a git server); a requirement on x@v1.2.0 is answered by the commit tagged exactly x/v1.2.0. A dawn.toml whose requirement version is not canonical (build metadata, short form, leading zero) is rejected by dawn's configuration loader, so every resolution that reaches it must fail - cold, warm and in every forced download order (each reachable version's download parked until the others have settled)",
+		"spelling families: every requirement path in every dependency dawn.toml, and in the root dawn.toml (written as text and read through dawn's configuration loader), is spelled with an explicit @v1 major, a \"./\" element or a trailing slash; the reference is the build list of the canonical spelling",
 		"hang = no result within 10 s (normal cost < 1 ms)",
 	}
 	r.Finish(vlib.Coverage{
